@@ -23,13 +23,13 @@ Definition json_float (x : fl) : outcome bstr :=
   end.
 
 (* sort.Strings order of the keys (mapEncoder sorts the reflected keys); stable insertion *)
-Fixpoint insert_kv {A} (k : bstr) (x : A) (l : list (bstr * A)) : list (bstr * A) :=
+Fixpoint json_insert_kv {A} (k : bstr) (x : A) (l : list (bstr * A)) : list (bstr * A) :=
   match l with
   | [] => [(k, x)]
-  | (k', x') :: r => if bstr_leb k k' then (k, x) :: l else (k', x') :: insert_kv k x r
+  | (k', x') :: r => if bstr_leb k k' then (k, x) :: l else (k', x') :: json_insert_kv k x r
   end.
-Definition sort_kv {A} (l : list (bstr * A)) : list (bstr * A) :=
-  fold_right (fun kx acc => insert_kv (fst kx) (snd kx) acc) [] l.
+Definition json_sort_kv {A} (l : list (bstr * A)) : list (bstr * A) :=
+  fold_right (fun kx acc => json_insert_kv (fst kx) (snd kx) acc) [] l.
 
 Definition json_member (kx : bstr * bstr) : bstr := json_string (fst kx) ++ [58] ++ snd kx.
 
@@ -69,6 +69,6 @@ Fixpoint json_encode (v : value) : outcome bstr :=
                   | [] => Ok []
                   | (k, x) :: r => s <- json_encode x ;; rs <- go r ;; Ok ((k, s) :: rs)
                   end) m ;;
-      Ok ([123] ++ join [44] (map json_member (sort_kv items)) ++ [125])
+      Ok ([123] ++ join [44] (map json_member (json_sort_kv items)) ++ [125])
   end.
 End JsonEncode.
